@@ -248,7 +248,9 @@ def lex(src):
                 elif e == 10 or e == 13:
                     out.append(10)
                     j += 2
-                    if j < n and src[j] in (10, 13) and src[j] != e:
+                    # line ends of the dialect are LF, CR LF and lone CR (as everywhere else in this lexer):
+                    # LF CR is a line end followed by a raw CR, which a short string cannot hold
+                    if e == 13 and j < n and src[j] == 10:
                         j += 1
                 elif e == 120:   # \xhh
                     if j + 3 < n + 0 and is_xdigit(src[j + 2]) and j + 3 < n and is_xdigit(src[j + 3]):
@@ -317,18 +319,28 @@ def lex(src):
             continue
         # ---- '::' only occurs in the label shape ::Name:: (no inner blanks) in this dialect
         if c == 58 and i + 1 < n and src[i + 1] == 58:
+            # label shape  '::' blanks* Name blanks* '::'   (blanks = space / tab, on one line)
             j = i + 2
+            while j < n and src[j] in (32, 9):
+                j += 1
             if j < n and is_name_start(src[j]):
                 k = j + 1
                 while k < n and is_name_char(src[k]):
                     k += 1
-                if src[k:k + 2] == b'::' and src[j:k] not in KEYWORDS:
-                    toks.append(Tok('symbol', b'::', i, j, tl, tc))
-                    toks.append(Tok('name', src[j:k], j, k, tl, tc + 2))
-                    toks.append(Tok('symbol', b'::', k, k + 2, tl, tc + 2 + (k - j)))
-                    i = k + 2
+                m = k
+                while m < n and src[m] in (32, 9):
+                    m += 1
+                if src[m:m + 2] == b'::' and src[j:k] not in KEYWORDS:
+                    toks.append(Tok('symbol', b'::', i, i + 2, tl, tc))
+                    if j > i + 2:
+                        toks.append(Tok('space', src[i + 2:j], i + 2, j, tl, tc + 2))
+                    toks.append(Tok('name', src[j:k], j, k, tl, tc + (j - i)))
+                    if m > k:
+                        toks.append(Tok('space', src[k:m], k, m, tl, tc + (k - i)))
+                    toks.append(Tok('symbol', b'::', m, m + 2, tl, tc + (m - i)))
+                    i = m + 2
                     continue
-            raise Reject('"::" outside the label shape ::Name::', i)
+            raise Reject('"::" outside the label shape :: Name ::', i)
         # ---- symbols, longest match
         for ln in range(min(_MAXSYM, n - i), 0, -1):
             if src[i:i + ln] in _SYMSET:
@@ -370,9 +382,17 @@ def adapt_picotool(tokens):
             out.append(('keyword', t._data, line, col, t))
         elif isinstance(t, lexer.TokLabel):
             d = t._data
+            inner = d[2:-2]
+            lead = len(inner) - len(inner.lstrip(b' \t'))
+            name = inner.strip(b' \t')
+            c0 = 0 if col is None else col
             out.append(('symbol', b'::', line, col, t))
-            out.append(('name', d[2:-2], line, None if col is None else col + 2, t))
-            out.append(('symbol', b'::', line, None if col is None else col + len(d) - 2, t))
+            if lead:
+                out.append(('space', inner[:lead], line, None if col is None else c0 + 2, t))
+            out.append(('name', name, line, None if col is None else c0 + 2 + lead, t))
+            if len(inner) > lead + len(name):
+                out.append(('space', inner[lead + len(name):], line, None if col is None else c0 + 2 + lead + len(name), t))
+            out.append(('symbol', b'::', line, None if col is None else c0 + len(d) - 2, t))
         elif isinstance(t, lexer.TokName):
             if t._data == b'?':
                 out.append(('symbol', b'?', line, col, t))
